@@ -352,3 +352,12 @@ func Preview(b []byte, n int) string {
 	}
 	return strconv.Quote(string(b[:n])) + fmt.Sprintf("...(+%d bytes)", len(b)-n)
 }
+
+// WriteCurrent records c as the case in flight (used by harness watchdogs before they abort a hung process).
+func WriteCurrent(id, part string, c interface{}, msg string) {
+	out := os.Getenv("VERIF_OUT")
+	if out == "" {
+		return
+	}
+	writeCase(out+".current", Spec{ID: id, Part: part}, c, msg)
+}
